@@ -26,10 +26,11 @@ if VERIF not in sys.path:
 
 class V:
     def __init__(self, vid, kind, file, old, new, rule=None, count=1,
-                 note='', edits=None):
+                 note='', edits=None, patch=None):
         self.vid = vid
         self.kind = kind          # 'B' breaking, 'N' neutral
-        self.edits = edits or [(file, old, new, count)]
+        self.patch = patch        # unified diff applied with `git apply`
+        self.edits = edits or ([(file, old, new, count)] if file else [])
         self.rule = rule          # rule id expected among the violations
         self.note = note
 
@@ -39,6 +40,13 @@ def _apply(variant, repo, dst):
     pkg = os.path.join(dst, 'src', 'socketio')
     os.makedirs(os.path.dirname(pkg), exist_ok=True)
     shutil.copytree(src, pkg, ignore=shutil.ignore_patterns('__pycache__'))
+    if variant.patch:
+        import subprocess
+        r = subprocess.run(['git', 'apply', variant.patch], cwd=dst,
+                           capture_output=True, text=True)
+        if r.returncode != 0:
+            return 'stale: patch does not apply (%s)' % r.stderr.strip()[:80]
+        return None
     for file, old, new, count in variant.edits:
         p = os.path.join(pkg, file)
         with open(p, encoding='utf-8') as f:
@@ -89,12 +97,45 @@ def _run_one(job):
         shutil.rmtree(tmp, ignore_errors=True)
 
 
-def variants_for(prop):
+def recorded_variants(prop):
+    """the confirmed seeded changes whose target is `prop` (must be
+    reported) and the recorded behaviour-preserving refactorings that touch
+    one of the property's anchor files (must stay silent)"""
+    import glob
+    out = []
+    for d in sorted(glob.glob(os.path.join(VERIF, 'seeded', 's*-*'))):
+        try:
+            meta = json.load(open(os.path.join(d, 'meta.json')))
+        except Exception:
+            continue
+        if meta.get('property') == prop and meta.get('confirmed'):
+            out.append(V('seed:' + os.path.basename(d), 'B', None, None,
+                         None, patch=os.path.join(d, 'patch.diff')))
+    files = set()
+    for line in open(os.path.join(VERIF, 'properties.jsonl')):
+        p = json.loads(line)
+        if p['id'] == prop:
+            files = {os.path.basename(f) for f in p['anchors']['files']}
+    for pf in sorted(glob.glob(os.path.join(VERIF, 'seeded', 'neutral', '*',
+                                            'neutral_*.diff'))):
+        touched = {os.path.basename(l.split(' b/')[-1].strip())
+                   for l in open(pf) if l.startswith('diff --git')}
+        if touched & files:
+            out.append(V('neutral:%s/%s' % (
+                os.path.basename(os.path.dirname(pf)),
+                os.path.basename(pf)), 'N', None, None, None, patch=pf))
+    return out
+
+
+def variants_for(prop, recorded=True):
     try:
         mod = importlib.import_module('selftest.variants.' + prop.lower())
+        vs = list(mod.VARIANTS)
     except ModuleNotFoundError:
-        return []
-    return list(mod.VARIANTS)
+        vs = []
+    if recorded:
+        vs += recorded_variants(prop)
+    return vs
 
 
 def run_for(prop, repo='/repo', jobs=16):
